@@ -798,7 +798,11 @@ def specs(tier):
                     if sh == (3, 3) and fa == "list" and not thorough:
                         continue
                     add(case=k, shapes=(sh,), forms=(fa,), complex=cxm)
-        add(case="transpose", shapes=((2, 3),), complex=cxm)
+        for fa in ("coef", "zero", "sum", "list"):
+            for sh in ((2, 3), (3, 2), (1, 3)):
+                add(case="transpose", shapes=(sh,), forms=(fa,), complex=cxm)
+        for k in ("dev", "skew", "sym", "tr", "det"):
+            add(case=k, shapes=((2, 2),), forms=("zero",), complex=cxm) if k != "det" else None
         add(case="diag", shapes=((3,),), complex=cxm)
         for k in ("elem_mult", "elem_div"):
             for sh in ((2,), (2, 2)):
